@@ -120,6 +120,16 @@ func runNAVCOMMIT(c *Ctx) {
 			}
 		}
 	}
+	nextEntry := c.P.MastFunc("(*DiffCursor).NextEntry")
+	diffOnly := map[*ssa.Function]bool{}
+	if nextEntry != nil {
+		cur := c.Facts.Reach(c.Entries("(*Cursor).Min", "(*Cursor).Max", "(*Cursor).Forward", "(*Cursor).Backward", "(*Cursor).Ceil")...)
+		for fn := range c.Facts.Reach(nextEntry) {
+			if !cur[fn] {
+				diffOnly[fn] = true
+			}
+		}
+	}
 	var fns []*ssa.Function
 	for fn := range reach {
 		fns = append(fns, fn)
@@ -189,6 +199,15 @@ func runNAVCOMMIT(c *Ctx) {
 			}
 			if why, ok := navExceptions[ir.FuncName(fn)]; ok {
 				c.OK(P.InstrPos(h.call), fmt.Sprintf("%s: state changed before fallible %s", ir.FuncName(fn), n), "exception (idempotent under retry): "+why, false)
+				continue
+			}
+			if diffOnly[fn] && nextEntry != nil {
+				// the diff cursor: one finding for the whole step machinery — its retry-safety is
+				// one property of NextEntry, wherever the pops and loads sit after a refactoring
+				c.Violation(nextEntry, P.InstrPos(h.call), "diff state changed before a fallible step",
+					fmt.Sprintf("in %s, %s can fail after the diff state was already changed (%s at %s): NextEntry returns an error, and continuing or retrying drops the popped subtree or desynchronises the two sides",
+						ir.FuncName(fn), n, h.eff.Desc, P.InstrPos(h.eff.Instr)),
+					"earliest state change: "+h.eff.Desc+" at "+P.InstrPos(h.eff.Instr))
 				continue
 			}
 			c.Violation(fn, P.InstrPos(h.call), "state changed before fallible "+n,
